@@ -32,6 +32,7 @@ SUBS = {
                "edges": [["x", "f.p"], ["f.q", "o"]], "bbs": {"f": ["ffd", ["p"], ["q"]]}},
     "pinin_out": {"name": "pio", "nodes": [["x", "input", False], ["f.p", "bb_input", True], ["f.q", "bb_output", False], ["o", "buf", True]],
                   "edges": [["x", "f.p"], ["f.q", "o"]], "bbs": {"f": ["ffd", ["p"], ["q"]]}},
+    "ffconst": {"name": "ffc", "nodes": [["p", "input", False], ["q", "1", True]], "edges": [], "bbs": {}},
     "ffimpl": {"name": "ffi", "nodes": [["p", "input", False], ["q", "buf", True]], "edges": [["p", "q"]], "bbs": {}},
 }
 SEEDS = {
@@ -45,6 +46,9 @@ SEEDS = {
     "replacedpin": {"name": "c", "nodes": [["a", "input", False], ["b", "input", False], ["u.p", "and", False], ["u.q", "bb_output", False],
                                            ["c", "buf", True]],
                     "edges": [["a", "u.p"], ["b", "u.p"], ["u.q", "c"]], "bbs": {"u": ["ffd", ["p"], ["q"]]}, "removed_pins": ["u.p"]},
+    # ... or for a node carrying the OTHER pin type, with a driver
+    "replacedpin2": {"name": "c", "nodes": [["a", "input", False], ["b", "input", False], ["u.p", "bb_input", False], ["u.q", "bb_input", False]],
+                     "edges": [["a", "u.p"], ["b", "u.q"]], "bbs": {"u": ["ffd", ["p"], ["q"]]}, "removed_pins": ["u.q"]},
     "nestedpins": {"name": "c", "nodes": [["a", "input", False], ["c", "buf", True], ["d", "buf", True],
                                           ["w.x", "bb_input", False], ["w.f.q", "bb_output", False], ["w.o", "bb_output", False],
                                           ["w2.x", "bb_input", False], ["w2.f.p", "bb_output", False], ["w2.o", "bb_output", False]],
@@ -85,6 +89,7 @@ def alphabet():
             ["add_subcircuit", "and2", "s", {"zz": "a"}]]
     ops += [["fill_blackbox", "w", "pinout"], ["fill_blackbox", "w2", "pinin_out"], ["add_subcircuit", "pinout", "s", {"f.q": "c"}],
             ["add_subcircuit", "pinin_out", "s", {"f.p": "c", "x": "a"}]]
+    ops += [["fill_blackbox", "u", "inv"], ["fill_blackbox", "u", "ffconst"]]
     ops += [["fill_blackbox", "u", "ffimpl"], ["fill_blackbox", "u", "and2"], ["fill_blackbox", "zz", "ffimpl"],
             ["fill_blackbox", "v", "ffimpl"]]
     return ops
@@ -125,7 +130,7 @@ def rand_op(rng):
 
 def cases(tier, seed):
     ops = alphabet()
-    for sname in ("empty", "small", "withbb", "nestedpins", "replacedpin"):
+    for sname in ("empty", "small", "withbb", "nestedpins", "replacedpin", "replacedpin2"):
         for o in ops:
             yield {"seed": sname, "ops": [o]}
     pairs = list(itertools.product(range(len(ops)), repeat=2))
@@ -136,7 +141,7 @@ def cases(tier, seed):
         yield {"seed": "small" if (i + j) % 3 else "withbb", "ops": [ops[i], ops[j]]}
     n_rand = 1500 if tier == "quick" else 30000
     for i in range(n_rand):
-        yield {"seed": rng.choice(["empty", "small", "withbb", "nestedpins", "replacedpin"]),
+        yield {"seed": rng.choice(["empty", "small", "withbb", "nestedpins", "replacedpin", "replacedpin2"]),
                "ops": [rand_op(rng) if rng.random() < 0.6 else rng.choice(ops) for _ in range(rng.randint(3, 12))]}
 
 
